@@ -23,6 +23,8 @@ def todo():
                 if re.search(pat, f): ids.update(ps)
         ids.discard(own)
         ids = [i for i in sorted(ids) if i not in meta.get('checks', {}) or os.environ.get('CROSS_REDO')]
+        if os.environ.get('CROSS_IDS'): ids = [i for i in ids if i in os.environ['CROSS_IDS'].split(',')]      # restrict to some checks
+        if os.environ.get('CROSS_ONLY') and n not in os.environ['CROSS_ONLY'].split(','): ids = []      # restrict to some controls
         if ids: out.append((d, n, ids))
     return out
 def run_one(item):
